@@ -39,3 +39,14 @@ Proof.
   destruct TP as [_ [_ [H2 _]]]. destruct pc as [|p0 pt]; [cbn [length] in H2; lia|].
   apply mapM_total. exact T.
 Qed.
+
+(* ---------------------------------------------------------------- the per-deviate checker is sound *)
+Theorem gen_check_tu_sound tol pofx x us outs :
+  gen_check_tu tol (fst (gen_tables false pofx x)) (snd (gen_tables false pofx x)) us outs = true ->
+  Forall2 (fun u o => exists y, sampler pofx x u = Ok y
+                                /\ (Qabs (y - o) <= tol * ucond (pcum_of pofx x) u)%Q) us outs.
+Proof.
+  unfold gen_check_tu, pcum_of, sampler. destruct (gen_tables false pofx x) as [xv pc]. cbn [fst snd].
+  apply all2_Forall2. intros u o E. destruct (interplin xv pc u) as [y|e]; [|discriminate].
+  exists y. split; [reflexivity|]. apply close_b_sound. exact E.
+Qed.
